@@ -64,6 +64,8 @@ def _build():
     add(E('qty:int kg', N.num(3, 'kg'), 'int'))
     for u in ['%', '$', 'm/s', u'°C', u'µg', 'kW_h', 'ft']:
         add(E('qty:-2.25' + u, N.num(-2.25, u), rep=(u == u'°C')))
+    for u in [u'\u2126', u'k\u2126', u'\u212a', u'\u212b', u'e\u0301', u'\xb5\u03a9']:        # units are written raw: normalisation would show
+        add(E('qty:7' + u, N.num(7.0, u), rep=(u == u'\u2126')))
     add(E('qty:1e22kg', N.num(1e22, 'kg'), rep=True))      # same magnitude as the representative plain number 1e22
     add(E('qty:1e-7kg', N.num(1e-7, 'kg')))
     add(E('qty:nounit', N.num(2.5), 'qty'))
@@ -75,7 +77,10 @@ def _build():
             'd:2020-01-01', 'h:12:00', 't:2020-01-01T00:00:00Z UTC', 'c:1,2', '[1]', '{"a":1}', '"x"', '[', '{', '"', '\\', '\\"', '""', '\\\\',
             '$', '$$', '`', ',', ',,', ':', '\n', '\r\n', '\r', '\t', '\n\n', 'a\n\nb', '>>', '<<', '>>\n', ' a', 'a ', '\x00', '\x01', '\x1f', '\x7f', '\x08\x0c',
             u'é', u'\u0080', u' ', u' ', u'﻿', u'￿', u'\U0001f600', u'\ud800', '\\n', '\\u0041', '\\$', 'a"b,c', 'x\\', u'\\\u00e9', '\\\x01', 'C:\\data\\ubad0', '\\\\u0041', u'\U0001f600\\']
-    reps = {'a', 'N', 'n:1', '"', '\\', '\n', ',', u'é', '\x01', '$', 'a b', u'\U0001f600', ''}
+    # text that Unicode normalisation (NFC / NFKC) or case folding would rewrite: decomposed accent, OHM / KELVIN / ANGSTROM signs, a
+    # ligature, a supplementary-plane character with a canonical mapping, dotless / dotted i, sharp s
+    strs += [u'e\u0301', u'\u2126\u212a\u212b', u'\ufb01', u'\U0002f800', u'\u0130\u0131\xdf', u'A\u030a\u0327']
+    reps = {'a', 'N', 'n:1', '"', '\\', '\n', ',', u'é', '\x01', '$', 'a b', u'\U0001f600', '', u'e\u0301'}
     for s in strs:
         add(E('str:%r' % s, ('str', s), rep=s in reps))
     # uris
@@ -167,8 +172,10 @@ def _build():
     # versions spelled with a third group: equal to 3.0 / 2.0 as versions, but a different spelling that survives as written
     g6 = N.mkgrid('3.0.0', [], [('a', [])], [(('list', (one,)),), (na,)])
     g7 = N.mkgrid('2.0.0', [('m', mk)], [('a', [])], [(one,)])
-    for i, g in enumerate([g0, g1, g2, g3, g4, g5, g6, g7]):
-        add(E('grid:%d' % i, g, minver='3.0', rep=i in (1, 2, 6)))
+    # a nested grid of the OTHER version whose content is spelled differently per version (Remove), in meta, column meta and rows
+    g8 = N.mkgrid('2.0', [('m', N.REMOVE)], [('a', [('c', N.REMOVE)]), ('b', [])], [(N.REMOVE, one), (N.NULL, N.REMOVE)])
+    for i, g in enumerate([g0, g1, g2, g3, g4, g5, g6, g7, g8]):
+        add(E('grid:%d' % i, g, minver='3.0', rep=i in (1, 2, 6, 8)))
     return V
 
 
